@@ -1678,6 +1678,21 @@ class Interp(object):
         special = self.special_call(fv, args, kwargs, p, node)
         if special is not None:
             return special
+        # explicit lock.acquire() / lock.release() (try/finally style) move the held-lock set like `with`
+        if isinstance(fv, tuple) and fv[0] == "attr" and fv[2] in ("acquire", "release") and not kwargs:
+            kind = self.lock_kind(fv[1], p)
+            if kind in ("Lock", "RLock", "Condition"):
+                lk = ("lock", fv[1], kind)
+                if fv[2] == "acquire" and not args:
+                    self.emit(p, "enter", node, lk)
+                    p.locks = p.locks + (lk,)
+                    return [(("const", True), p)]
+                if fv[2] == "release" and not args:
+                    if lk in p.locks:
+                        idx = len(p.locks) - 1 - p.locks[::-1].index(lk)
+                        p.locks = p.locks[:idx] + p.locks[idx + 1:]
+                    self.emit(p, "exit", node, lk)
+                    return [(NONE, p)]
         callee, selfv, self_cls, approx = self.resolve_callee(fv, p, node)
         if callee is not None and isinstance(fv, tuple) and fv[0] == "attr" and isinstance(fv[1], tuple) and fv[1][0] == "attr" and fv[1][2] in self.types.tainted_fields and callee.owner is not None:
             # a method of an object the user may supply (a retry policy): the library's default class is only one
@@ -1848,6 +1863,9 @@ class Interp(object):
                 return [(self.new_cell(("set", ()), p, node), p)]
             if n == "dict" and not args and not kwargs:
                 return [(("dict", ()), p)]
+            if n == "dict" and not args and kwargs and all(k is not None for k, v in kwargs):
+                # dict(a=x, b=y) is {"a": x, "b": y}
+                return [(("dict", tuple((("const", k), v) for k, v in kwargs)), p)]
             if n == "len" and len(args) == 1 and isinstance(self.deref(args[0], p), tuple) and self.deref(args[0], p)[0] in ("tuple", "list"):
                 return [(("const", len(self.deref(args[0], p)[1])), p)]
             if n == "getattr" and len(args) == 2 and isinstance(args[1], tuple) and args[1][0] == "const" and isinstance(args[1][1], str):
